@@ -370,7 +370,7 @@ def to_arg_ns():
     return cached("to_arg", lambda: rewrite.load(B, ["ToArgs", "to_arg"], hooks={"len": plen}, tag="to_arg"))
 
 
-@harness("blocks.to_arg.cpython_reading", props=["C02", "C13"], functions=["code_data._blocks.to_arg", "code_data._blocks.ToArgs.found_index"], configs="all",
+@harness("blocks.to_arg.cpython_reading", props=["C02", "C13", "C01"], functions=["code_data._blocks.to_arg", "code_data._blocks.ToArgs.found_index"], configs="all",
          cost=6,
          assumes=["WF(c): every table operand indexes inside its table; hasfree operands inside cellvars+freevars"],
          notes="symbolic opcode in 0..255 (forks once per listed opcode), symbolic operand and tables: classification and resolution equal "
